@@ -167,6 +167,11 @@ pub fn float_complete(d: &FmtDesc, p: &Punct, s: &[u8]) -> Gram {
         return Gram::Reject;
     }
     let body = &s[i..];
+    if body.is_empty() && d.required_exponent_notation {
+        // whatever an empty mantissa means, "valid floats must contain an exponent notation
+        // character" is not met
+        return Gram::Reject;
+    }
     if body.is_empty() && !d.required_mantissa_digits && !d.required_integer_digits {
         // lone sign without required digits: not documented. Empty string: the builder docs say
         // "empty strings are still invalid" but lexical's own format tests (issue_96_tests.rs)
